@@ -6,6 +6,11 @@
 // columns unchanged, added columns/indexes/constraints present, v1's still present] ->
 // records of the v2 type round-trip (Create; raw SQL and First) -> migrate(v2) [no DDL].
 //
+// One case in eight (grow.go) adds RELATIONS in v2 to populated tables, with the models passed in
+// random order / subsets / split calls and SQLite foreign key enforcement on for most of them, so
+// that the dependency order computed by ReorderModels is observable (a rebuilt child table whose
+// new parent does not exist yet fails with "no such table").
+//
 // Tag values NOT generated because their non-idempotence is caused by the external SQLite
 // dialector's DDL parser (gorm.io/driver/sqlite ddlmod.go), not by migrator/migrator.go:
 //   - default:(expr)  e.g. default:(abs(-5)), default:(lower('AB')): defaultValueRegexp strips the
@@ -806,15 +811,19 @@ var Engine = &core.Engine{
 	ID:    "C20",
 	Level: "exploration",
 	Rule: "per case a fresh in-memory SQLite database and the history migrate(v1) -> 1..5 rows by raw SQL + 0..2 by gorm Create -> migrate(v1) -> migrate(v2) -> Create of v2 records (single, slice) read back by raw SQL and First -> migrate(v2); " +
-		"6 of 8 cases: model types generated with reflect.StructOf (5 key shapes; 1..7 fields of 33 Go kinds incl. pointers, sql.Null*, a custom Scanner/Valuer, a json serializer field, embedded structs with prefix; tags column, default (literal, quoted, spaced, empty, null, function), not null, size, type, precision, comment, unique, check (named/unnamed), index (plain, named, sort, length, comment, unique, class, collate, expression, partial), uniqueIndex, composite indexes with priorities, permissions, autoCreate/UpdateTime); v2 = v1 + 0..4 fields + 0..3 index/unique/check tags on existing fields + composite indexes spanning old and new fields; " +
+		"5 of 8 cases: model types generated with reflect.StructOf (5 key shapes; 1..7 fields of 33 Go kinds incl. pointers, sql.Null*, a custom Scanner/Valuer, a json serializer field, embedded structs with prefix; tags column, default (literal, quoted, spaced, empty, null, function), not null, size, type, precision, comment, unique, check (named/unnamed), index (plain, named, sort, length, comment, unique, class, collate, expression, partial), uniqueIndex, composite indexes with priorities, permissions, autoCreate/UpdateTime); v2 = v1 + 0..4 fields + 0..3 index/unique/check tags on existing fields + composite indexes spanning old and new fields; " +
 		"1 of 8: static types with anonymous embedding (gorm.Model, soft delete); 1 of 8: a related family (belongs-to, has-many, many2many, self reference, has-one added in v2) migrated as a random permutation/subset through ReorderModels; " +
-		"distinct = (key shape, set of v1 tag features, set of added features) resp. (family, argument order, additions); non-trivial = v2 adds something and the whole history ran",
+		"1 of 8: a family whose RELATIONS are added in v2 to tables that exist and hold rows (engine/c20/grow.go): v1 = books -> shelves plus a random subset of unrelated authors/publishers/tags tables with rows; v2 = one of three Book variants on table books (belongs-to only; has-many + many2many only; two belongs-to to one parent + has-many + many2many + unique index) with Author gaining a belongs-to to Publisher (dependency chain of depth 2) and a check, new tables reviews/book_tags; drawn per case: which referenced tables already exist, which models are passed and in which order (Book always; the others 2/3 each, otherwise reached as dependencies only; an unrelated model at times), one AutoMigrate call or the list split over two calls, db.AutoMigrate or db.Migrator().AutoMigrate, foreign key enforcement of the connections (_foreign_keys=1, 2 of 3), DisableForeignKeyConstraintWhenMigrating (1 of 8); demanded: no error, v1 cells unchanged, v1 objects kept, columns/indexes/foreign keys (pragma_foreign_key_list)/checks of every passed model and the tables its belongs-to/many2many point to exist, a v2 record with nested new associations round-trips (raw SQL and First+Preload), v2 again in another order issues no DDL; " +
+		"distinct = (key shape, set of v1 tag features, set of added features) resp. (family, argument order, additions) resp. (variant, enforcement, v1 tables, v2 argument order, call form); non-trivial = v2 adds something and the whole history ran",
 	Assumptions: []string{
 		"values are non-zero, distinct per row and satisfy every generated CHECK; data that would make the database itself refuse the new constraint (duplicates under a new unique index, a new NOT NULL column without constant default, a non-constant default on ADD COLUMN, a unique constraint on an added column that has a constant default) is not generated",
 		"schema-changing statement = text starting with CREATE/ALTER/DROP or containing RENAME/__temp on the recording driver (the SQLite dialector rebuilds tables through <table>__temp)",
 		"column introspection is the external SQLite dialector's DDL parser (gorm.io/driver/sqlite, not under /repo); tag values whose non-idempotence is caused there are not generated: parenthesised expression defaults `default:(abs(-5))` / `default:(lower('AB'))` (its regexp strips only the opening parenthesis), `type:decimal(10,2)` (its column regexp stops at the comma), `type:tinyint(1)`-style lengths on integer kinds",
 		"models that contradict themselves (type:varchar(64) with size:32, a type tag carrying NOT NULL/DEFAULT clauses, autoIncrement on a non-key column) and changes other than additions (altered types, defaults, sizes, dropped fields, columns added to an existing index) are outside the statement and not generated",
 		"index column order is compared as a set (equal priorities leave the order to sort.Slice)",
+		"foreign key enforcement (_foreign_keys=1) is switched on only in the growing-relations family, where no table that v2 has to rebuild is referenced by rows of another table: the external SQLite dialector adds a constraint by CREATE <t>__temp / INSERT..SELECT / DROP TABLE <t> / RENAME, and DROP TABLE of a referenced, populated parent fails under enforcement (`FOREIGN KEY constraint failed`, e.g. users gaining fk_users_manager while pets/user_langs rows point to it) - cause outside /repo, so the older relational family runs without enforcement",
+		"growing-relations family: the foreign key of a has-many is declared by the owner (Book.Reviews) but lives in the child table; a separate earlier AutoMigrate(&Review{}) call that has not seen Book cannot know it and the later AutoMigrate(&Book{}) does not touch reviews - the statement does not fix who adds it, so when the argument list is split over two calls Review is never in an earlier call than Book; has-many children that are not passed are not expected to exist; v2 columns are demanded only of models that were passed (for tables reached as dependencies only their existence is demanded, and nested associations in the round-trip record are used only for passed models)",
+		"with DisableForeignKeyConstraintWhenMigrating no foreign key is demanded (nor its absence); IgnoreRelationshipsWhenMigrating is not generated",
 	},
 	Cases: func(tier string) int {
 		if tier == "thorough" {
